@@ -278,6 +278,16 @@ def rule_eof(ctx):
         ctx.floor_errors.append(f"rule=C19.EOF: {n_sites} control-line read sites (floor 2)")
     lst = p.nested(p.method("Client", "list"), "__anext__")
     inner = [w for w in walk_no_nested(lst) if isinstance(w, ast.While) and isinstance(w.test, ast.UnaryOp) and isinstance(w.test.op, ast.Not)]
+    # the same loop written as `while True: line = ...readline(); if line: break; ...` (e.g. a walrus in the loop test)
+    for w in walk_no_nested(lst):
+        if isinstance(w, ast.While) and isinstance(w.test, ast.Constant) and w.test.value is True and w not in inner:
+            reads = {n.targets[0].id for n in w.body if isinstance(n, ast.Assign) and len(n.targets) == 1 and isinstance(n.targets[0], ast.Name) and isinstance(n.value, ast.Await)
+                     and isinstance(n.value.value, ast.Call) and is_method_call(n.value.value, "readline")}
+            leaves_on_line = any(isinstance(i_, ast.If) and i_.body and isinstance(i_.body[-1], ast.Break)
+                                 and any(pol and ((isinstance(t, ast.Name) and t.id in reads) or (isinstance(t, ast.Await) and isinstance(t.value, ast.Call) and is_method_call(t.value, "readline")))
+                                         for t, pol in flatten_test(p, i_.test, True, lst)) for i_ in w.body)
+            if reads and leaves_on_line:
+                inner.append(w)
     ok = False
     for w in inner:
         fin = any(isinstance(c, ast.Call) and is_method_call(c, "finish") for c in walk_no_nested(w))
